@@ -140,7 +140,21 @@ def batches(tier, seed):
     per = 8 if tier == "quick" else 40
     for i in range(0, len(specs), per):
         b.append(("registries/%d" % (i // per), ("registries", specs[i:i + per])))
-    return b
+    # 'constants survive being used': one history per group of constants (enumerated battery, seeded order), each with the seven
+    # built-in namespaces and one generated unit system held for the whole history.  Longest batches first.
+    canons = list(K.C)
+    group = 5 if tier == "quick" else 1
+    ub = []
+    for i in range(0, len(canons), group):
+        gen = None
+        for j in range(40):
+            cand = _custom(i * 100 + j, "usage", pick)
+            if cand["current"] and _in_float_range(cand):
+                gen = cand
+                break
+        ub.append(("usage/%d" % (i // group), ("usage", {"canons": canons[i:i + group], "other": canons[(i + 7) % len(canons)],
+                                                       "tier": tier, "seed": seed, "generated": gen})))
+    return ub + b
 
 
 # ------------------------------------------------------------------ the harness's own reading of a unit expression
@@ -393,6 +407,43 @@ def judge_double_role(unyt, rec, A, get, src, where):
             rec.reach("double-role:" + canon)
 
 
+def judge_published(unyt, rec, pc, counter="published"):
+    """SI magnitude of every <X>_mks within the uncertainty class of the published value"""
+    for canon, c in K.C.items():
+        q = getattr(pc, canon + "_mks", None)
+        case = {"constant": canon, "guise": repr(q)}
+        try:
+            o = observe(unyt, q, None, None, si=True)
+        except Exception as e:
+            rec.violation(f"C15:published:not-in-SI-units:{canon}", f"unyt.physical_constants.{canon}_mks = {q!r}: {e}", case)
+            continue
+        if o["dim"] != c.dim:
+            rec.violation(f"C15:published:dimension:{canon}", f"{canon}_mks = {q!r}: dimension {dims.show(o['dim'])}, published quantity "
+                          f"has {dims.show(c.dim)}", case)
+            continue
+        err = relerr(o["mag"], c.value)
+        if err > c.tol:
+            rec.violation(f"C15:published:out-of-class:{canon}",
+                          f"{canon}_mks = {q!r}; published value {c.value!r} (class '{c.cls}' rel {c.tol:g}); off by rel {err:.3g}", case)
+        else:
+            rec.ok((counter, canon, c.cls))
+            rec.count(counter)
+
+
+def si_bare_values(unyt, pc):
+    """bare numbers of the *_mks guises (coherent SI, every scale is exactly 1)"""
+    vals = {}
+    for canon in K.C:
+        q = getattr(pc, canon + "_mks", None)
+        try:
+            o = observe(unyt, q, None, None, si=True)
+        except Exception:
+            continue
+        if canon != "Na":
+            vals[canon] = o["value"] * o["scale"]
+    return vals
+
+
 def cgs_raw(cgs):
     """raw CGS numbers of the mechanical constants (all atoms are cgs units by the system-units monitor)"""
     return {k: v for k, (v, atoms) in cgs.items() if all(a in K.SYSTEM_UNITS["cgs"] for a in atoms)}
@@ -458,6 +509,237 @@ def build_registry(unyt, spec):
     raise ValueError(kind)
 
 
+# ------------------------------------------------------------------ 'constants survive being used'
+FULL_EVERY = 1000      # full snapshot comparison of every tracked object after this many calls
+
+
+def _sfx(n):
+    if n in K.LEGACY:
+        return K.LEGACY[n][1]
+    return "_mks" if n.endswith("_mks") else ("_cgs" if n.endswith("_cgs") else "plain")
+
+
+def run_usage(unyt, rec, A, bid, payload, track):
+    """one history: snapshot every guise -> battery of read-only library calls with constants as operands -> byte-for-byte comparison
+    and the coherence monitors once more, in the same process"""
+    import warnings
+    import numpy as np
+    import unyt.physical_constants as pc
+    from unyt.unit_systems import add_constants
+    from vf.gen import c15_usage as UG
+    from vf.monitors.c15_snapshot import Tracker, show
+    warnings.simplefilter("ignore")
+    np.seterr(all="ignore")
+    tier, seed = payload["tier"], payload["seed"]
+    r = core.rng(seed, "C15", bid)
+    dlut = unyt.unit_registry.default_unit_registry.lut
+    # ---- namespaces held for the whole history
+    held = {}
+    specs = [{"kind": "system", "system": s, "how": "name"} for s in BUILTIN] + ([payload["generated"]] if payload.get("generated") else [])
+    for spec in specs:
+        label = "sys-" + spec["system"] if spec["kind"] == "system" else "sys-generated"
+        try:
+            reg, extra_, allowed, has_current, ns = build_registry(unyt, spec)
+            space = {}
+            add_constants(space, reg)
+        except Exception as e:
+            rec.note(f"usage:held-namespace-not-constructible:{label}:{type(e).__name__}")
+            continue
+        held[label] = (reg, space, extra_, allowed, has_current, ns)
+    # ---- snapshot before
+    tr = Tracker()
+    for n, v in list(vars(pc).items()):
+        if not n.startswith("_") and isinstance(v, unyt.unyt_array):
+            tr.track(v, "module:" + _sfx(n), "unyt.physical_constants." + n)
+            tr.bound("module", lambda k: getattr(pc, k, None), n, v)
+            t = getattr(unyt, n, None)
+            if isinstance(t, unyt.unyt_array):
+                tr.track(t, "toplevel:" + _sfx(n), "unyt." + n)
+                tr.bound("toplevel", lambda k: getattr(unyt, k, None), n, t)
+    for label, h in held.items():
+        for n, v in h[1].items():
+            if isinstance(v, unyt.unyt_array):
+                tr.track(v, label + ":" + _sfx(n), f"add_constants[{label}].{n}")
+                tr.bound(label, h[1].get, n, v)
+    rec.count("usage:tracked-objects", len(tr.objs))
+    T = UG.templates(unyt)
+    N = UG.nullary(unyt)
+    nc, cat = UG.catalogue_cases()
+    heldns = {label: (h[0], h[1]) for label, h in held.items()}
+    # ---- the cases (enumerated), then a seeded order
+    cases = []
+    per_canon = {}
+    for ci, canon in enumerate(payload["canons"]):
+        c = K.C[canon]
+        x = getattr(pc, canon, None)
+        if x is None or not tr.tracked(x):
+            rec.note("usage:constant-absent:" + canon)
+            continue
+        other = getattr(pc, payload["other"], None)
+        P = UG.partners(unyt, pc, heldns, canon, c.names, other, x)
+        if tier != "quick":
+            P += [("alias", getattr(pc, n)) for n in c.names[2:] if getattr(pc, n, None) is not None]
+            P += [(label + "_mks", h[1][canon + "_mks"]) for label, h in held.items() if canon + "_mks" in h[1] and label in ("sys-cgs", "sys-generated")]
+        G = [(k, o) for k, o in P if k != "same-object" and tr.tracked(o)]
+        G.insert(0, ("plain", x))
+        Tm = [(k, o) for k, o in P if not tr.tracked(o)]
+        per_canon[canon] = (G, Tm)
+        for ti, (tname, fam, arity, fn) in enumerate(T):
+            if arity == 1:
+                cases += [("T", ti, canon, gi, None) for gi in range(len(G))]
+                continue
+            if tier == "quick":
+                pairs = [(0, j) for j in range(len(G))] + [(j, 0) for j in range(1, len(G))]
+                pairs += [(r.randrange(len(G)), r.randrange(len(G))) for _ in range(3)]
+                tp = [(0, -1 - j) for j in range(len(Tm))] + [(-1 - j, 0) for j in range(len(Tm))]
+            else:
+                pairs = [(i, j) for i in range(len(G)) for j in range(len(G))]
+                tp = [(i, -1 - j) for i in range(len(G)) for j in range(len(Tm))] + [(-1 - j, i) for i in range(len(G)) for j in range(len(Tm))]
+            cases += [("T", ti, canon, i, j) for i, j in pairs + tp]
+    canons = list(per_canon)
+    if not canons:
+        return
+    for k in range(len(N)):
+        cases.append(("N", k))
+    for k in range(len(cat)):
+        for canon in (canons if tier != "quick" else [canons[k % len(canons)]]):
+            cases.append(("C", k, canon))
+    rounds = 1 if tier == "quick" else 2
+    recent = []
+
+    def judge_operand(tname, fam, i, obj, kinds, labels):
+        d, before, after = tr.changed(obj)
+        if d == ["unit-object"]:
+            rec.note(f"usage:equal-unit-object-attached:{tname}")
+            d = []
+        me = kinds[i]
+        oth = "+".join(k for j, k in enumerate(kinds) if j != i) or "alone"
+        if d:
+            rec.violation(f"C15:survive:{tname}:arg{i}:{'+'.join(d)}:{me}-with-{oth}",
+                          f"{labels[i]} was {show(before)} and is {show(after)} after the read-only call {tname}({', '.join(labels)}) "
+                          f"[operand kinds {', '.join(kinds)}]; the shared constant object no longer denotes the same quantity",
+                          {"template": tname, "operands": labels, "kinds": kinds, "changed": labels[i]})
+        else:
+            rec.ok(("survive", tname, "arg%d" % i, me, oth))
+            rec.count("survive:" + fam)
+
+    def full_check(why):
+        for i, o in tr.objs.items():
+            d, before, after = tr.changed(o)
+            if d and d != ["unit-object"]:
+                rec.violation(f"C15:survive:{why}:bystander:{'+'.join(d)}:{tr.kind[i]}",
+                              f"{tr.label[i]} was {show(before)} and is {show(after)}; it was not an operand of any call since the last full "
+                              f"comparison (calls since then include {sorted(set(recent))[:12]})",
+                              {"object": tr.label[i], "recent": sorted(set(recent))[:40]})
+        rec.ok(("survive-bystanders", why))
+        rec.count("survive:bystanders", len(tr.objs))
+        del recent[:]
+
+    def lab(o, kind):
+        return tr.label[id(o)] if tr.tracked(o) else f"<{kind}>"
+
+    ncalls = 0
+    for rnd in range(rounds):
+        r.shuffle(cases)
+        for case in cases:
+            ncalls += 1
+            if case[0] == "T":
+                _, ti, canon, i, j = case
+                tname, fam, arity, fn = T[ti]
+                G, Tm = per_canon[canon]
+                pick = lambda k: G[k] if k >= 0 else Tm[-1 - k]
+                ops = [pick(i)] if j is None else [pick(i), pick(j)]
+                kinds = [k for k, _ in ops]
+                objs = [o for _, o in ops]
+                if len(objs) == 2 and objs[0] is objs[1]:
+                    kinds[1] = "same-object"
+                labels = [lab(o, k) for k, o in ops]
+                try:
+                    fn(*objs)
+                    rec.count("usage-returned:" + fam)
+                except Exception:
+                    rec.count("usage-raised:" + fam)
+                recent.append(tname)
+                seen = set()
+                for k, o in enumerate(objs):
+                    if tr.tracked(o) and id(o) not in seen:
+                        seen.add(id(o))
+                        judge_operand(tname, fam, k, o, kinds, labels)
+            elif case[0] == "N":
+                tname, fn = N[case[1]]
+                try:
+                    fn()
+                    rec.count("usage-returned:rematerialise")
+                except Exception:
+                    rec.count("usage-raised:rematerialise")
+                recent.append(tname)
+                full_check(tname)
+                rec.count("survive:rematerialise")
+            else:
+                _, k, canon = case
+                t = cat[k]
+                G, Tm = per_canon[canon]
+                x = G[0][1]
+                pk, p = G[(k + rnd) % len(G)]
+                y = getattr(pc, payload["other"], None)
+                try:
+                    call = t.build(nc.Gen(r, "f8", "0d", "gen"))
+                    args, kwargs, leaves = UG.realise_with_constants(nc, unyt, call, x, p, y)
+                except Exception:
+                    rec.count("usage:catalogue-not-built")
+                    continue
+                try:
+                    t.observe(args, kwargs, t.invoke(args, kwargs))
+                    rec.count("usage-returned:numpy-catalogue")
+                except Exception:
+                    rec.count("usage-raised:numpy-catalogue")
+                tname = "np-catalogue:" + t.tid
+                recent.append(tname)
+                tl = [(path, o) for path, q, o in leaves if tr.tracked(o)]
+                kinds = [("plain" if o is x else (pk if o is p else "other-constant")) for _, o in tl]
+                labels = [tr.label[id(o)] for _, o in tl]
+                seen = set()
+                for n_, (path, o) in enumerate(tl):
+                    if id(o) not in seen:
+                        seen.add(id(o))
+                        judge_operand(tname, "numpy-catalogue", n_, o, kinds, labels)
+            if ncalls % FULL_EVERY == 0:
+                full_check("battery")
+        full_check("battery")
+    rec.count("usage:calls", ncalls)
+    # ---- after the battery: byte-for-byte against the first look, bindings, and every coherence monitor once more
+    for i, o in tr.objs.items():
+        d, before, after = tr.drift(o)
+        if d and d != ["unit-object"]:
+            rec.violation(f"C15:after-use:snapshot-differs:{'+'.join(d)}:{tr.kind[i]}",
+                          f"{tr.label[i]} was {show(before)} when unyt was imported and is {show(after)} after {ncalls} read-only library "
+                          f"calls that took constants as operands", {"object": tr.label[i]})
+        else:
+            rec.ok(("after-use-snapshot", tr.kind[i]))
+            rec.count("after-use:snapshot")
+    for nslabel, name, was, now in tr.rebound():
+        rec.violation(f"C15:after-use:rebound:{nslabel}:{_sfx(name)}", f"{nslabel} name {name} was bound to {was!r} and is now bound to {now!r}",
+                      {"namespace": nslabel, "name": name})
+    if not tr.rebound():
+        rec.ok(("after-use-bindings",))
+        rec.count("after-use:bindings", len(tr.bind))
+    e0 = rec.evals
+    mks, cgs = judge_namespace(unyt, rec, A, lambda n: getattr(pc, n, None), "module:after-use", K.SYSTEM_UNITS["mks"], dlut, None, True, track)
+    judge_relations(rec, mks, "module:after-use", "SI:after-use", track)
+    judge_relations(rec, cgs_raw(cgs), "module:after-use", "raw-CGS:after-use", track, only=K.MECHANICAL)
+    mks, cgs = judge_namespace(unyt, rec, A, lambda n: getattr(unyt, n, None), "toplevel:after-use", K.SYSTEM_UNITS["mks"], dlut, None, True, track)
+    judge_relations(rec, mks, "toplevel:after-use", "SI:after-use", track)
+    for label, (reg, space, extra_, allowed, has_current, ns) in held.items():
+        mks, cgs = judge_namespace(unyt, rec, A, space.get, ns + ":after-use", allowed, reg.lut, extra_, has_current, track)
+        judge_relations(rec, mks, ns + ":after-use", "SI:after-use", track)
+        judge_relations(rec, cgs_raw(cgs), ns + ":after-use", "raw-CGS:after-use", track, only=K.MECHANICAL)
+    judge_relations(rec, si_bare_values(unyt, pc), "module:after-use", "SI-bare:after-use", track)
+    judge_published(unyt, rec, pc, counter="published:after-use")
+    judge_double_role(unyt, rec, A, lambda n: unyt.Unit(n), "Unit(str)", "default:after-use")
+    rec.count("after-use:coherence", rec.evals - e0)
+    rec.sample({"usage": bid, "calls": ncalls, "tracked": len(tr.objs), "G": repr(pc.G), "G_cgs": repr(pc.G_cgs)}, limit=1)
+
+
 # ------------------------------------------------------------------ worker
 def worker(batch, rec):
     import unyt
@@ -483,37 +765,11 @@ def worker(batch, rec):
         rec.sample({"toplevel": {n: repr(getattr(unyt, n, None)) for n in ("G", "hbar", "c", "mp", "Msun_cgs")}})
     elif kind == "relations":
         # the relations once more on the bare numbers of the *_mks guises (coherent SI, every scale is exactly 1)
-        vals = {}
-        for canon in K.C:
-            q = getattr(pc, canon + "_mks", None)
-            try:
-                o = observe(unyt, q, None, None, si=True)
-            except Exception:
-                continue
-            if canon != "Na":
-                vals[canon] = o["value"] * o["scale"]
+        vals = si_bare_values(unyt, pc)
         judge_relations(rec, vals, "module", "SI-bare", track)
         rec.sample({"relation": "eps_0*mu_0*c**2", "value": vals.get("eps_0", 0) * vals.get("mu_0", 0) * vals.get("c", 0) ** 2})
     elif kind == "published":
-        for canon, c in K.C.items():
-            q = getattr(pc, canon + "_mks", None)
-            case = {"constant": canon, "guise": repr(q)}
-            try:
-                o = observe(unyt, q, None, None, si=True)
-            except Exception as e:
-                rec.violation(f"C15:published:not-in-SI-units:{canon}", f"unyt.physical_constants.{canon}_mks = {q!r}: {e}", case)
-                continue
-            if o["dim"] != c.dim:
-                rec.violation(f"C15:published:dimension:{canon}", f"{canon}_mks = {q!r}: dimension {dims.show(o['dim'])}, published quantity "
-                              f"has {dims.show(c.dim)}", case)
-                continue
-            err = relerr(o["mag"], c.value)
-            if err > c.tol:
-                rec.violation(f"C15:published:out-of-class:{canon}",
-                              f"{canon}_mks = {q!r}; published value {c.value!r} (class '{c.cls}' rel {c.tol:g}); off by rel {err:.3g}", case)
-            else:
-                rec.ok(("published", canon, c.cls))
-                rec.count("published")
+        judge_published(unyt, rec, pc)
         rec.sample({"published": {"G": [repr(pc.G_mks), K.C["G"].value, "grav"]}})
     elif kind == "double-role":
         import unyt.unit_symbols as us
@@ -524,6 +780,8 @@ def worker(batch, rec):
         if na is not None and relerr(float(na.d), 1.0) > 4 * ULP:
             rec.note("Na-times-mol-differs-from-1(two-table-ratios,inside-CODATA-class)")
         rec.sample({"double-role": {"me": [repr(unyt.Unit("me").base_value), repr(pc.me)]}})
+    elif kind == "usage":
+        run_usage(unyt, rec, A, bid, payload, track)
     elif kind == "registries":
         for spec in payload:
             try:
@@ -570,6 +828,13 @@ def extra(tier, seed, results):
             counters[k] = counters.get(k, 0) + v
     need = ("guise:plain", "guise:_mks", "guise:_cgs", "guise-route:gaussian", "system-units:plain", "system-units:_cgs", "relation:SI",
             "relation:raw-CGS", "relation:SI-bare", "published", "double-role:listed", "registries")
+    # 'constants survive being used': every family of calls must have been driven (returned at least once) and judged, and the
+    # comparisons and monitors after the battery must have run
+    from vf.gen import c15_usage as UG
+    fams = UG.FAMILIES + ("numpy-catalogue", "rematerialise")
+    need += tuple("survive:" + f for f in fams) + tuple("usage-returned:" + f for f in fams)
+    need += ("survive:bystanders", "after-use:snapshot", "after-use:bindings", "after-use:coherence", "relation:SI:after-use",
+             "relation:raw-CGS:after-use", "relation:SI-bare:after-use", "published:after-use")
     zero = [n for n in need if counters.get(n, 0) == 0]
     viol = any(r.get("viol") for _, r in results)
     if zero and not viol:
